@@ -273,9 +273,11 @@ Proof.
     destruct (IHp e ts ts' Hs Gs Es) as [[NDs Ws] [Cs [Ps Us]]].
     pose proof (Gp CVocab) as V. cbn [step_guard] in V. inversion S; subst t'.
     assert (t = sem_select_rows fl_pandas x ts) as ->.
-    { apply (select_rows_step_ok (column_names (OSelectRows s x)) x ts t V); [|exact H]. intros r Ir.
-      apply (nulls_ok3_from ts ts' [x] r x Cs Ps); try (left; reflexivity); try assumption.
-      - exact (Gp CCmpNull). - exact (Gp CLogicNull). - exact (Gp CMinMaxNull). }
+    { apply (select_rows_step_filter (column_names (OSelectRows s x)) x ts t V); [|exact H]. intros r Ir.
+      assert (In r (rows ts')) as Ir' by (eapply Permutation_in; eassumption).
+      pose proof (Gp CCmpNull) as G1. pose proof (Gp CLogicNull) as G2. pose proof (Gp CMinMaxNull) as G3.
+      cbn [step_guard] in G1, G2, G3. unfold filter_rows_ok in G1, G2, G3. rewrite forallb_forall in G1, G2, G3.
+      unfold filter_ok3. rewrite Cs. auto. }
     split; [split; [exact NDs|apply width_select_rows; exact Ws]|]. split; [exact Cs|]. split; [apply select_rows_perm; assumption|exact Us].
   - (* select_columns *)
     cbn [plexec] in H. unary_prelude H S G Hs Es Gs Gp.
